@@ -62,7 +62,7 @@ var relevant = map[string][]string{
 	"C04": {"ev:UpdateState"},
 	"C05": {"ev:PickReturn", "ev:OpEnd"},
 	"C06": {"ev:PickReturn", "ev:OpEnd"},
-	"C07": {"probe:client_deadline_completion", "probe:refresh_attempt"},
+	"C07": {"probe:client_deadline_completion", "probe:refresh_attempt", "fault:completion_client-deadline"},
 	"C08": {"probe:keyed_pick_home_down_fallback"},
 	"C09": {"probe:rr_pick", "probe:rr_pick_waiting"},
 	"C10": {"ev:PickReturn"},
